@@ -47,6 +47,33 @@ PaintOK(o, p) ==
          /\ \A j \in 1..Len(p.stops) : o.colors[j] = p.stops[j].c /\ Same(o.offsets[j], p.stops[j].o)
     [] OTHER -> FALSE
 
+(* the pixel-to-gradient matrix the paint reports (o.m: six [exact, k, q] = k * 2^-q) is the register matrix p.m    *)
+(* composed with the pixel-to-viewBox map; decided exactly where that map is a power of two in both axes and all    *)
+(* numbers are small dyadics, accepted otherwise (TV_Gradient has the same rule for its cfg events)                  *)
+RECURSIVE NormDy(_, _)
+NormDy(k, q) == IF k = 0 THEN << 0, 0 >> ELSE IF k % 2 = 0 THEN NormDy(k \div 2, q - 1) ELSE << k, q >>
+IsP2(n) == \E j \in 0..12 : n = Pow2(j)
+MatrixOK(o, p, rr) ==
+  IF p.k # "grad" \/ o.k # "grad" \/ ~Has(o, "m") \/ Len(o.m) # 6 THEN TRUE
+  ELSE
+  LET a  == [i \in 1..6 |-> AsScaled(p.m[i], 16)]
+      v  == [i \in 1..4 |-> AsScaled(rr.vb[i], 6)]
+      dx == rr.rect[3] - rr.rect[1]   dy == rr.rect[4] - rr.rect[2]
+      wx == v[3].k - v[1].k           wy == v[4].k - v[2].k
+      lat == /\ \A i \in 1..6 : a[i].ok /\ Abs(a[i].k) <= (IF i \in {3, 6} THEN 4194304 ELSE 65536)   \* |linear| <= 1, |translation| <= 64
+             /\ \A i \in 1..4 : v[i].ok /\ Abs(v[i].k) <= 8192
+             /\ wx > 0 /\ wy > 0 /\ dx > 0 /\ dy > 0
+             /\ (dx * 64) % wx = 0 /\ (dy * 64) % wy = 0 /\ IsP2((dx * 64) \div wx) /\ IsP2((dy * 64) \div wy)
+             /\ \A i \in 1..6 : o.m[i][1] = 1
+  IN IF ~lat THEN TRUE
+     ELSE LET jx == Log2((dx * 64) \div wx)
+              jy == Log2((dy * 64) \div wy)
+              want == << NormDy(a[1].k, 16 + jx), NormDy(a[2].k, 16 + jy),
+                         NormDy(a[3].k * 64 + a[1].k * v[1].k + a[2].k * v[2].k, 22),
+                         NormDy(a[4].k, 16 + jx), NormDy(a[5].k, 16 + jy),
+                         NormDy(a[6].k * 64 + a[4].k * v[1].k + a[5].k * v[2].k, 22) >> IN
+          \A i \in 1..6 : NormDy(o.m[i][2], o.m[i][3]) = want[i]
+
 (* elliptical arc: at most four cubic segments ending at the mapped end point *)
 ArcOK(rz, endPt) ==
   /\ Len(rz) >= 1 /\ Len(rz) <= 4
@@ -221,6 +248,7 @@ TVCall ==
      ELSE IF res.judge = "draw" /\ ~(/\ Len(ev.rz) = 2 /\ ev.rz[1].k = "ClosePath" /\ ev.rz[2].k = "Draw"
                                      /\ ev.rz[2].i = res.rz[2].i) THEN Bad("raster", "close and draw once over the target rectangle", res.rz)
      ELSE IF res.judge = "draw" /\ ~PaintOK(ev.rz[2].src, r.paint) THEN Bad("vm", "paint", r.paint)
+     ELSE IF res.judge = "draw" /\ ~MatrixOK(ev.rz[2].src, r.paint, r) THEN Bad("vm", "paint matrix", r.paint)
      ELSE IF res.judge \in {"exact", "tol"} /\ ~AllRzOK(ev.rz, res.rz, res.judge) THEN Bad("raster", "rasteriser calls (" \o res.judge \o ")", res.rz)
      ELSE IF res.judge = "arc" /\ ~ArcOK(ev.rz, res.rz[1].p) THEN Bad("arc", "arc segments / end point", res.rz)
      ELSE IF res.judge = "arc" /\ Has(ev, "hint") /\ ArcGeom(ev.rz, ev.call, ev.hint, r.g, r.pen, res.rz[1].p) = "hint"
